@@ -150,6 +150,9 @@ func (p Proxy) ServeHTTP(w http.ResponseWriter, r *http.Request) (int, error) {
 	if requiresBuffering {
 		body, err := newBufferedBody(outreq.Body)
 		if err != nil {
+			if errors.Is(err, httpserver.ErrMaxBytesExceeded) {
+				return http.StatusRequestEntityTooLarge, err
+			}
 			return http.StatusBadRequest, errors.New("failed to read downstream request body")
 		}
 		if body != nil {
@@ -261,7 +264,8 @@ func (p Proxy) ServeHTTP(w http.ResponseWriter, r *http.Request) (int, error) {
 			return 0, nil
 		}
 
-		if backendErr == httpserver.ErrMaxBytesExceeded {
+		// the transport may wrap the body's read error (e.g. in a *net.OpError)
+		if errors.Is(backendErr, httpserver.ErrMaxBytesExceeded) {
 			return http.StatusRequestEntityTooLarge, backendErr
 		}
 
